@@ -205,8 +205,8 @@ example : syncIdsFresh [] [.update 1 5, .sync 7, .update 2 6, .remove 1, .write,
 with and without the request of another remote `r`. -/
 def C03_concurrent_syncs_independent : Prop :=
   ∀ (ops : List Op) (r r' : Nat), r ≠ r' → syncIdsFresh [] ops = true →
-    (framesOf {} ops).filter (Frame.isTo r') =
-      (framesOf {} (ops.filter (fun o => !o.isSyncOf r))).filter (Frame.isTo r')
+    (indepFramesOf {} ops).filter (Frame.isTo r') =
+      (indepFramesOf {} (ops.filter (fun o => !o.isSyncOf r))).filter (Frame.isTo r')
 
 /-- It is false, of the model and of the real `MapLane` alike (`corpus/C03/ml-indep-witness.ops`: the real lane
 answers `sync:7:1:9` with the request of remote 8 present and `sync:7:1:5` without): every write serves one queue and
